@@ -483,6 +483,46 @@ func mkChunk(r *rand.Rand, tsx []int64) encChunk {
 	return c
 }
 
+
+// orderOK reports whether the heap's pop order is unambiguous for this input (the same
+// test run() applies); the generator drops inputs for which it is not, so that the
+// harness never has to refuse a generated input.
+func orderOK(in input) bool {
+	if len(in.Chunks) < 1 || len(in.Chunks) > 12 {
+		return false
+	}
+	var metas []chunks.Meta
+	for i := range in.Chunks {
+		d, pr, err := in.Chunks[i].decode()
+		if err != nil || !pr[0] {
+			return false
+		}
+		m, err := aggrMeta(d, pr)
+		if err != nil {
+			return false
+		}
+		metas = append(metas, m)
+	}
+	ser := make([]int, len(metas))
+	for i := range metas {
+		ser[i] = i
+		if i < len(in.Series) {
+			ser[i] = in.Series[i]
+		}
+	}
+	for i := 1; i < len(metas); i++ {
+		a, b := metas[i-1], metas[i]
+		switch {
+		case a.MinTime < b.MinTime || (a.MinTime == b.MinTime && a.MaxTime < b.MaxTime):
+		case sameChunk(in.Chunks[i], in.Chunks[i-1]):
+		case i == 1 && a.MinTime == b.MinTime && a.MaxTime == b.MaxTime && ser[0] == 0 && ser[1] == 1:
+		default:
+			return false
+		}
+	}
+	return true
+}
+
 func gen(r *rand.Rand, tier string, n int) []any {
 	var out []any
 	for len(out) < n {
@@ -607,6 +647,9 @@ func gen(r *rand.Rand, tier string, n int) []any {
 					in.Chunks[i].Vals[a] = nil
 				}
 			}
+		}
+		if !orderOK(in) {
+			continue
 		}
 		out = append(out, in)
 	}
